@@ -89,6 +89,10 @@ where
     }
 
     pub fn insert(&mut self, key: K, val: V, hash_v: u64) {
+        #[cfg(rsdd_verif)]
+        if self.cap < 12 && crate::verif::buggify(crate::verif::Site::LruGrowNow) {
+            self.grow();
+        }
         // see if we need to grow
         if (self.num_filled as f64 / (1 << self.cap) as f64) > GROW_RATIO {
             // println!("growing");
@@ -98,6 +102,8 @@ where
         let pos = pow_cap(hash_v as usize, self.cap);
         let e = Element::new(key, val, hash_v);
         if self.tbl[pos].is_some() {
+            #[cfg(rsdd_verif)]
+            crate::verif::probe(crate::verif::Probe::LruOverwrite);
             self.stat.conflict_count += 1;
             // println!("hash: {hash_v}, pos:{pos}, conflict: {}, num_filled: {}", self.stat.conflict_count, self.num_filled);
         } else {
@@ -110,6 +116,12 @@ where
         // self.stat.lookup_count += 1;
         let pos = pow_cap(hash_v as usize, self.cap);
         let v = &self.tbl[pos];
+        #[cfg(rsdd_verif)]
+        crate::verif::probe(match v {
+            Some(ref e) if e.key == key => crate::verif::Probe::LruHit,
+            Some(_) => crate::verif::Probe::LruMissOtherKey,
+            None => crate::verif::Probe::LruMissEmpty,
+        });
         match v {
             Some(ref v) if v.key == key => Some(v.val.clone()),
             _ => {
@@ -121,6 +133,8 @@ where
 
     /// grow the hashtable to accomodate more elements
     fn grow(&mut self) {
+        #[cfg(rsdd_verif)]
+        crate::verif::probe(crate::verif::Probe::LruGrow);
         let new_sz = self.cap + 1;
         let new_v = vec![None; 1 << new_sz];
         let mut new_tbl = Lru {
